@@ -52,6 +52,8 @@ type Obligation struct {
 	ctx    *Ctx
 	Vacuity bool // a probe that must be SAT (goal is the formula that must be satisfiable)
 	Using  []string
+	Extra  []string // extra assert commands (instantiated lemmas)
+	Expr   Expr // the clause (for replay compilation)
 }
 
 // Ctx is the VC-building context of one function (or lemma).
@@ -60,6 +62,9 @@ type Ctx struct {
 	mode     Mode
 	pkg      *types.Package
 	decls    []string
+	sortDecls []string
+	recForms [][2]string
+	preludeLen int
 	declared map[string]bool
 	cmds     []string
 	obls     []*Obligation
@@ -151,6 +156,7 @@ func (c *Ctx) prelude() {
 	c.decl("(define-fun imin ((a Int) (b Int)) Int (ite (<= a b) a b))")
 	c.decl("(define-fun imax ((a Int) (b Int)) Int (ite (>= a b) a b))")
 	c.decl("(declare-fun closfn (Int) Int)")
+	c.preludeLen = len(c.decls)
 }
 
 // ---------- sorts ----------
@@ -255,10 +261,10 @@ func (c *Ctx) declStruct(name string, st *types.Struct) {
 		fs = append(fs, fmt.Sprintf("(%s_%s %s)", name, fieldName(st, i), c.sortOf(st.Field(i).Type())))
 	}
 	if len(fs) == 0 {
-		c.decl(fmt.Sprintf("(declare-datatypes ((%s 0)) (((mk_%s))))", name, name))
+		c.sortDecls = append(c.sortDecls, fmt.Sprintf("(declare-datatypes ((%s 0)) (((mk_%s))))", name, name))
 		return
 	}
-	c.decl(fmt.Sprintf("(declare-datatypes ((%s 0)) (((mk_%s %s))))", name, name, strings.Join(fs, " ")))
+	c.sortDecls = append(c.sortDecls, fmt.Sprintf("(declare-datatypes ((%s 0)) (((mk_%s %s))))", name, name, strings.Join(fs, " ")))
 }
 
 func fieldName(st *types.Struct, i int) string {
@@ -691,19 +697,40 @@ func intLit(v int64) string {
 
 // query assembles the SMT-LIB text for an obligation.
 func (o *Obligation) query(extra []string, timeoutMs int) string {
+	return o.queryVariant(extra, 0)
+}
+
+// queryVariant: variant 0 encodes recursive spec functions with fuel axioms,
+// variant 1 as define-fun-rec.
+func (o *Obligation) queryVariant(extra []string, variant int) string {
 	c := o.ctx
 	var b strings.Builder
 	b.WriteString("(set-option :produce-models true)\n")
 	b.WriteString("(set-logic ALL)\n")
-	for _, d := range c.decls {
+	for i, d := range c.decls {
+		if strings.HasPrefix(d, "@@REC:") {
+			var k int
+			fmt.Sscanf(d, "@@REC:%d@@", &k)
+			d = c.recForms[k][variant]
+		}
 		b.WriteString(d)
 		b.WriteString("\n")
+		if i == c.preludeLen-1 {
+			for _, sd := range c.sortDecls {
+				b.WriteString(sd)
+				b.WriteString("\n")
+			}
+		}
 	}
 	if d := c.strDistinct(); d != "" {
 		b.WriteString(d + "\n")
 	}
 	for _, cmd := range c.cmds[:o.prefix] {
 		b.WriteString(cmd)
+		b.WriteString("\n")
+	}
+	for _, e := range o.Extra {
+		b.WriteString(e)
 		b.WriteString("\n")
 	}
 	for _, e := range extra {
